@@ -167,6 +167,10 @@ func (server *SugarDB) getExpiry(ctx context.Context, key string) time.Time {
 	if !ok {
 		return time.Time{}
 	}
+	// A key whose deadline has passed no longer exists: it has no deadline to report.
+	if entry.ExpireAt != (time.Time{}) && entry.ExpireAt.Before(server.clock.Now()) {
+		return time.Time{}
+	}
 
 	return entry.ExpireAt
 }
@@ -298,6 +302,13 @@ func (server *SugarDB) setExpiry(ctx context.Context, key string, expireAt time.
 
 	database := ctx.Value("Database").(int)
 
+	// Only a key that exists can be given a deadline: writing the entry of a missing (or already
+	// expired) key would create an entry without a value, or bring the expired value back.
+	entry, ok := server.store[database][key]
+	if !ok || (entry.ExpireAt != (time.Time{}) && entry.ExpireAt.Before(server.clock.Now())) {
+		return
+	}
+
 	server.store[database][key] = internal.KeyData{
 		Value:    server.store[database][key].Value,
 		ExpireAt: expireAt,
@@ -328,6 +339,11 @@ func (server *SugarDB) setExpiry(ctx context.Context, key string, expireAt time.
 
 func (server *SugarDB) deleteKey(ctx context.Context, key string) error {
 	database := ctx.Value("Database").(int)
+
+	// A key that is not there has nothing to delete (and nothing to deduct from the memory tracker).
+	if _, ok := server.store[database][key]; !ok {
+		return nil
+	}
 
 	// Deduct memory usage in tracker.
 	data := server.store[database][key]
